@@ -308,7 +308,11 @@ def main():
     for p in props:
         pid = p["id"]
         if pid in CHECKS:
-            c = CHECKS[pid]
+            c = dict(CHECKS[pid])
+            # "<n> theorems on ..." at the head of a text: the count is taken from the Props file as it is now
+            import re
+            nthm = sum(1 for l in open(os.path.join(ROOT, "lean", "IpfixModel", "Props", pid + ".lean")) if l.startswith("theorem "))
+            c["text"] = re.sub(r"^(\d+) theorems", "%d theorems" % nthm, c["text"])
             checks.append({
                 "property_id": pid,
                 "quick_cmd": "python3 check.py %s --tier quick" % pid,
